@@ -565,10 +565,10 @@ class Tokens:
 
 class StructuralFam:
     PROPS = ["C12", "C13", "C14", "C15", "C33"]
-    ASSUMPTIONS = ["one abstract two-sheet workbook (Structural.tla): numbers, a quote-prefixed text, 12 literals that are sensitive to re-entry (TRUE, a 15-digit decimal, text, 'TRUE, 1e3, an ISO date, 50%, $5.5, '=A1, #N/A, a URL, '1e3), bold cells, 9 formulas with relative / absolute / mixed, cross-sheet, range, whole-column, whole-row and defined-name references, row heights, column widths, 4 hyperlinks, one conditional format with a reference in its rule, one global defined name",
+    ASSUMPTIONS = ["one abstract two-sheet workbook (Structural.tla): numbers, a quote-prefixed text, 12 literals that are sensitive to re-entry (TRUE, a 15-digit decimal, text, 'TRUE, 1e3, an ISO date, 50%, $5.5, '=A1, #N/A, a URL, '1e3), bold cells, 9 formulas with relative / absolute / mixed, cross-sheet, range, whole-column, whole-row and defined-name references, row heights, column widths, italic row and column band styles (rows / columns 7 and 9), 4 hyperlinks, one conditional format with a reference in its rule, one global defined name",
                    "actions on sheet 1, rows and columns 1..Last: insert / delete 1..MaxK rows or columns, move 1..MaxK rows or columns by -MaxD..MaxD, clear one cell, undo after a clear, cut one linked cell and paste it on an empty cell; quick: Last 5, MaxK 2, MaxD 2, every sequence of 2 actions; thorough: Last 6, MaxK 3, MaxD 3",
                    "expected state from one position map sigma per action; references are read back from the displayed formula with the engine's own parser; a literal must show exactly what it showed at the start (content, type, formatted value, bold) at its new position; a formula the spec marks as preserved must show its initial formatted value",
-                   "left open as the statements leave them open: a range one of whose ends is deleted (shrunk or #REF!), ranges that straddle a moved block, values of formulas that read deleted cells or whole columns under a row move; not covered: references pushed off the grid edge, array formulas and spills, hidden rows in the landing zone of a move, column / row styles",
+                   "left open as the statements leave them open: a range one of whose ends is deleted (shrunk or #REF!), ranges that straddle a moved block, values of formulas that read deleted cells or whole columns under a row move; not covered: references pushed off the grid edge, array formulas and spills, hidden rows in the landing zone of a move, band styles that cross styled cells",
                    "attribution: first-step insertion C12; deletion C13; delete directly after the same insertion C14; moves C15; links, conditional-format area and rule formula, clear / undo / cut C33 (whatever the action)"]
 
     @staticmethod
